@@ -12,7 +12,9 @@ RULE = ("(i) port generator alone: 1..450 ranges (singletons, adjacent, overlapp
         "socks-docker-elastic (real GenericEngine, recording scanner): subnets /20../32 aligned and unaligned x port ranges, "
         "well-formed pairs files, address files x port ranges from a regular file and from stdin, port-less scans; --exclude "
         "on/off, ARP cache with gateway on/off; multisets of probes and error records; non-trivial = at least 2 probes or a "
-        "refused port list; distinct by case seed")
+        "refused port list; distinct by case seed; (iv) end to end: the sx binary in a private network namespace (veth pair, "
+        "packet socket as wire log): tcp subnet x ports with exclusion, tcp pairs file without -p, udp address file x ports, tcp "
+        "address list on stdin x 3 ports, tcp /31 x 400+ port ranges (3 chunks), arp, icmp")
 
 CODES = {1: "port generator: error differs from the model", 2: "port generator: port sequence differs from the model",
          3: "port generator: channel not closed",
@@ -137,6 +139,37 @@ def spec_on_impl(o):
     return None
 
 
+def judge_e2e(o):
+    if o.get("skipped"):
+        return None
+    fb = bytes.fromhex(o.get("frames") or "")
+    got = collections.Counter(fb[i:i + 6] for i in range(0, len(fb), 6))
+    want = collections.Counter(key(a, p) for a, p in o["want"])
+    if got == want and o["rc"] == 0:
+        return None
+
+    def show(c):
+        return ["%s:%d x%d" % (T.dotted(int.from_bytes(k[:4], "big")), int.from_bytes(k[4:], "big"), n) for k, n in sorted(c.items())[:4]]
+    argv = " ".join(a if len(a) < 60 else a[:57] + "..." for a in o["argv"])
+    if got != want:
+        return "sx %s%s: %d probes on the wire where %d are due; missing %s, not due %s (exit status %d)" % (
+            argv, " < address list" if o.get("stdin") else "", sum(got.values()), sum(want.values()), show(want - got), show(got - want), o["rc"])
+    return "sx %s: exit status %d: %s" % (argv, o["rc"], (o.get("stderr") or "")[:200])
+
+
+def run_e2e(ctx, n):
+    """the unmodified sx binary in private network namespaces (root, ip netns); returns the observed rows"""
+    sx = os.path.join(ctx.work, "sx")
+    rc, out = verif.sh(["go", "build", "-o", sx, "."], env=verif.GOENV, cwd=verif.REPO, timeout=900)
+    if rc != 0:
+        ctx.broken.append(("correspondence: the sx binary does not build", out[-1500:]))
+        return []
+    ok, _ = ctx.harness_run("c01", ["-e2e", sx, "-out", "e2e.jsonl", "-seed", ctx.seed, "-ne2e", n], timeout=3000)
+    if not ok:
+        return []
+    return ctx.read_jsonl(os.path.join(ctx.work, "e2e.jsonl"))
+
+
 def describe(o):
     return "%s case seed=%d (%s)" % (o["kind"], o["case_seed"], o["class"])
 
@@ -165,9 +198,9 @@ def run(ctx):
     quick = ctx.tier == "quick"
     ctx.trusted += ["math/rand draws: universally quantified in the theorems, replayed from the seed for the port generator; in "
                     "composed chains several goroutines draw from the global source concurrently, so chains are compared as "
-                    "multisets", "the engine start functions themselves (afpacket, BPF) are not run in-process: the chunk loop of "
-                    "startPortScanEngine and the chain each command builds enter the theorems through the translated table "
-                    "Gen/TargetWiring.v", "pkg/scan/verif_export*.go, command/verif_export_c01.go (build tag verif)"]
+                    "multisets", "the engine start functions (afpacket, BPF, the chunk loop of startPortScanEngine) run only in the "
+                    "end-to-end cases (sx binary in a network namespace, wire log); they enter the theorems through the translated "
+                    "table Gen/TargetWiring.v", "pkg/scan/verif_export*.go, command/verif_export_c01.go (build tag verif)"]
     ctx.assumptions += ["a MAC is known for every destination (gateway MAC given or VPN mode) - otherwise C13 applies",
                         "live mode off (repeated passes: C19)"]
     gen_ok, model_ok, proof_ok = T.gen_and_prove(ctx, "Spec/C01.vo", "Properties/C01.v")
@@ -191,6 +224,23 @@ def run(ctx):
             per_class[cls] = per_class.get(cls, 0) + 1
             if per_class[cls] <= 2 and len(ctx.findings) < 10:
                 report(ctx, o, why)
+    # end to end: the real engine start functions (chunk loop included) with a wire log
+    if rows or not ctx.broken:
+        for idx, o in enumerate(run_e2e(ctx, 7 if quick else 70)):
+            cls = "e2e:" + o["class"]
+            if o.get("skipped"):
+                ctx.skipped.append("e2e %s: %s" % (o["class"], o["skipped"][:200]))
+                continue
+            ctx.count(cls, ("e2e", idx), nontrivial=o["nwant"] >= 2,
+                      sample={"kind": "e2e", "class": o["class"], "argv": " ".join(o["argv"])[:200], "due": o["nwant"], "on_wire": o["nframes"]})
+            why = judge_e2e(o)
+            if why:
+                per_class[cls] = per_class.get(cls, 0) + 1
+                small = {k: v for k, v in o.items() if k not in ("frames", "want")}
+                path = ctx.write_replay("e2e-%d" % idx, {"property": "C01", "what": why,
+                                                         "input": {"kind": "e2e", "index": idx, "seed": ctx.seed},
+                                                         "observed": small, "replay_cmd": "bin/check C01 --replay <this file>"})
+                ctx.findings.append({"key": "e2e:%s" % o["class"], "what": why, "replay": path})
     if per_class:
         ctx.info.append("failing inputs per class: %s" % json.dumps(per_class))
     if model_ok and rows:
@@ -207,6 +257,16 @@ def replay(ctx, path):
         return 1
     if not ctx.harness_build("c01"):
         return 1
+    if i["kind"] == "e2e":
+        ctx.seed = i["seed"]
+        rows = run_e2e(ctx, i["index"] + 1)
+        if len(rows) <= i["index"]:
+            print("replay e2e: the run could not be repeated")
+            return 1
+        o = rows[i["index"]]
+        why = judge_e2e(o)
+        print("replay e2e #%d (%s): %s" % (i["index"], o["class"], why or o.get("skipped") or "property holds on this input"))
+        return 1 if why else 0
     arg = "%s:%d" % (i["kind"], i["case_seed"]) + (":big" if i.get("big") else "")
     ctx.harness_run("c01", ["-out", "one.jsonl", "-replay", arg], timeout=600)
     o = ctx.read_jsonl(os.path.join(ctx.work, "one.jsonl"))[0]
